@@ -20,6 +20,10 @@ func verifNotifySubChange(t *Topic, uid, actor types.Uid, isChan bool, oldWant, 
 
 var verifNotified []types.Uid
 
+// knobs for focused variants
+var verifPrevBase = types.ModeCPublic // fixed bits of the former member's stored modes
+var verifForceActor = -1              // index into allUsers(), -1 = any
+
 const verifSubBits = types.ModeOwner | types.ModeJoin | types.ModeApprove | types.ModeShare
 
 // verifModeBits returns base with the O, J, A, S bits arbitrary.
@@ -78,7 +82,7 @@ func verifSubSetup(nMembers int) *verifSubWorld {
 	now := types.TimeNow()
 	fx.store.subs[verifSubKey(t.name, w.previous)] = &types.Subscription{
 		User: w.previous.String(), Topic: t.name, DeletedAt: &now,
-		ModeWant: verifModeBits("prevWant", base) &^ types.ModeOwner, ModeGiven: verifModeBits("prevGiven", base)}
+		ModeWant: verifModeBits("prevWant", verifPrevBase) &^ types.ModeOwner, ModeGiven: verifModeBits("prevGiven", verifPrevBase)}
 	// user rows (defaults used when inviting)
 	for _, u := range []types.Uid{fx.uids[0], w.previous, w.stranger} {
 		fx.store.users[u] = &types.User{State: types.StateOK, Access: types.DefaultAccess{Auth: types.ModeCAuth, Anon: types.ModeNone}}
@@ -148,7 +152,11 @@ const (
 func (w *verifSubWorld) step(opFixed int) (op int, target types.Uid, replies []*ServerComMessage) {
 	t := w.t
 	users := w.allUsers()
-	w.actor = users[verifChoose("actor", len(users))]
+	if verifForceActor >= 0 {
+		w.actor = users[verifForceActor]
+	} else {
+		w.actor = users[verifChoose("actor", len(users))]
+	}
 	sess := w.sess[w.actor]
 	op = opFixed
 	if op < 0 {
